@@ -275,6 +275,8 @@ def EW.finalize (ft : FloatText) (e : EW) (transform : String → Option String)
     | none => .err "transformer failed"
     | some xml =>
       let xmlBytes := utf8 xml
+      -- the reader refuses XML sections above 10 MiB: never write what cannot be read back
+      if xmlBytes.length > 1024 * 1024 * 10 then .err "XML section too large" else
       let xmlOffset := e.pw.physicalPosition
       let pw ← e.pw.writeAll xmlBytes
       let pw ← pw.align
